@@ -3,7 +3,7 @@
 (* Gen use for C14: random client histories printed as CASE lines.  A      *)
 (* history is a sequence of                                                *)
 (*   Update(value index, update mask)   Get(read mask)                     *)
-(*   OpenPull(updates-only, name)       CloseStream(which)                 *)
+(*   OpenPull(updates-only, name, read mask)   CloseStream(which)          *)
 (*   Other(delete | create): for servers whose triple addresses one record  *)
 (*   of a collection, another record of that collection is deleted/created  *)
 (*   (a no-op for the other servers)                                        *)
@@ -46,6 +46,16 @@ UpdateMask(z) ==
   ELSE [nil |-> FALSE, sel |-> R({ <<>>, <<R(0..7)>>, <<R(0..7)>>, <<R(0..7), R(0..7)>>, <<R(0..7), R(0..7), R(0..7)>>,
                                    <<90>>, <<R(0..7), 90>> })]
 
+\* read mask of a Pull that stays open: none, one or two whole fields (two streams then often have disjoint
+\* masks), nothing, sub-fields
+PullMask(z) ==
+  LET d == R(1..100) IN
+  IF d <= 35 THEN NilM
+  ELSE IF d <= 70 THEN [nil |-> FALSE, sel |-> <<R(0..7)>>]
+  ELSE IF d <= 80 THEN [nil |-> FALSE, sel |-> <<R(0..7), R(0..7)>>]
+  ELSE IF d <= 85 THEN [nil |-> FALSE, sel |-> <<>>]
+  ELSE [nil |-> FALSE, sel |-> R({ <<R(20..59)>>, <<R(100..179)>>, <<R(0..7), R(20..59)>> })]
+
 Blank == [op |-> "Get", uo |-> FALSE, name |-> 0, val |-> 0, mask |-> NilM, which |-> 0]
 
 RECURSIVE Build(_, _, _, _, _, _)
@@ -73,7 +83,7 @@ Build(z, left, open, upd, last, acc) ==
              Build(z, left - 1, open, upd, last, Append(acc, [Blank EXCEPT !.name = R(0..1), !.mask = ReadMask(z)]))
         [] k3 = "OpenPull" ->
              Build(z, left - 1, open + 1, upd, last,
-                   Append(acc, [Blank EXCEPT !.op = "OpenPull", !.uo = Flip(z, 50), !.name = R(0..1)]))
+                   Append(acc, [Blank EXCEPT !.op = "OpenPull", !.uo = Flip(z, 50), !.name = R(0..1), !.mask = PullMask(z)]))
         [] k3 = "PullOnce" ->   \* a Pull with a read mask of which only the first message is read
              Build(z, left - 1, open, upd, last, Append(acc, [Blank EXCEPT !.op = "PullOnce", !.name = R(0..1), !.mask = ReadMask(z)]))
         [] k3 = "RaceOpen" ->   \* a stream is opened and cancelled, then a new Pull opens while an Update is between
